@@ -44,6 +44,7 @@ func modelCheck(prop string, x *Exec, c *Case) ([]Violation, *Result, []*MatchRe
 		t := ParseOut(cs)
 		viol = append(viol, GrammarViolation(prop, i, t)...)
 		viol = append(viol, connEnded(prop, i, cs)...)
+		cs.checkRetained("end of connection")
 		if len(cs.Corrupt) > 0 {
 			viol = append(viol, Violation{Prop: prop, Rule: "retained-data-overwritten", Detail: cs.Corrupt[0], Sig: "retained " + firstWords(cs.Corrupt[0], 1)})
 		}
@@ -194,6 +195,28 @@ func init() {
 			nt := false
 			for _, cs := range r.Conns {
 				if strings.IndexByte(pgwire.Kinds(ParseOut(cs).Msgs), 'D') >= 0 {
+					nt = true
+				}
+			}
+			return viol, nt
+		},
+	})
+	// ------------------------------------------------------------------ C18
+	register(&Prop{
+		ID: "C18", Level: "exploration", QuickS: 25, ThoroughS: 420,
+		Rule: "seeded sessions in which every callback retains what it is given (validator: database/user/password strings; parser: query string; statement functions: Parameter.Value() slices and the client-parameter strings) together with a private deep copy taken at receipt; the rest of the session stresses read-buffer reuse: messages of body size 1, 4090..4100, 8191/8192, L-5, L-1, L, oversized messages skipped in several chunks, stray CopyData of those sizes, COPY streams, long runs of small messages; after every later callback and at connection end each retained value must equal its copy; a pass-through auth strategy watches cap(Reader.Msg) so that the probes reset_reused_tail / reset_reallocated show the mechanism was reached; non-trivial = at least one value was retained and at least two later messages were processed; distinct = distinct case content hashes",
+		Components: e1Components, Assumptions: commonAssumptions,
+		Gen: func(r *Rand, tier string) *Case {
+			c := &Case{Server: ServerCfg{Limit: r.PickInt(4096, 5000, 8192, 16384, 65536)}}
+			c.Server.Auth = r.Pick("cleartext", "passthrough", "passthrough")
+			genHistory(r, c, histOpts{simple: true, extended: true, copy: r.Chance(1, 3), params: true, retain: true, sizes: true, bigValues: true, between: true, stray: true, maxUnits: 9})
+			return c
+		},
+		Check: func(x *Exec, c *Case) ([]Violation, bool) {
+			viol, r, _ := modelCheck("C18", x, c)
+			nt := false
+			for _, cs := range r.Conns {
+				if len(cs.retainedVals) > 0 && countKind(cs, "parse")+countKind(cs, "stmt") >= 3 {
 					nt = true
 				}
 			}
